@@ -1,1 +1,399 @@
-fn main() {}
+//! C14 — nesting renames classes identically in jars and in mappings.
+//!
+//! Observed: `dukenest::{nest_jar, apply_nests_to_mappings, undo_nests_to_mappings, remap_nests}` and `Nests::read`
+//! (the table always enters as TEXT). Oracle: the reference nester of `refnest.rs` (rows that apply per kind rule,
+//! transitive `Enclosing$Inner` names), the class-only renamer of `rename.rs` over the independently parsed class
+//! models, the reference `apply` / nest translation of `mapside.rs`. See NOTES.md for what is not judged.
+mod jarside;
+mod mapside;
+mod refnest;
+mod rename;
+mod scenario;
+
+use common::{par::*, report::{finish, Meta}, *};
+use jarside::{InEntry, OutEntry};
+use mapside::{Dst, Exp, Src};
+use maps::{Ins, Maps};
+use refnest::*;
+use scenario::*;
+use std::collections::{BTreeMap, BTreeSet};
+
+fn hash_parts(parts: &[String]) -> u64 { rng::fnv_str(&parts.join("|")) }
+
+/// how a row looks to the reference (for counters and fingerprints)
+fn row_shape(r: &Row, verdict: Option<&'static str>, jar: &JarIndex, applying: &[&Row], new: Option<&String>) -> String {
+    let depth = if verdict.is_none() { chain_depth(r, applying) } else { 0 };
+    format!("{}:{}:d{}:{}:{}:{}", r.kind().name(), if verdict.is_none() { "applies" } else { "not" }, depth,
+        if jar.contains_key(&r.encl) { "encl_present" } else { "encl_missing" },
+        if new.is_some_and(|n| n == &r.class) { "same_name" } else { "new_name" },
+        match &r.method { None => "no_method", Some(_) if method_present(jar, r) => "method_declared", Some(_) => "method_not_declared" })
+}
+
+struct MapOutcome { applied: Option<Maps> }
+
+/// The mapping-side judgement shared by both workloads. `names_all` = new names by the construction over the whole table.
+fn map_side(rng: &mut Rng, rep: &mut Report, rows: &[Row], text: &str, m: &Maps, shapes: &BTreeMap<String, TargetShape>, names_all: &BTreeMap<String, String>, light: bool) -> MapOutcome {
+    let detail = || json!({"table": text, "mappings": m.render()});
+    let mut out = MapOutcome { applied: None };
+    let nests = match mapside::read_table::<Src>(text) {
+        Err(p) => { rep.violation(format!("C14 panic {}", p.site()), json!({"in": "Nests::read", "panic": p.message, "input": detail()})); return out; }
+        Ok(Err(e)) => { rep.violation(format!("C14 table text: a well-formed table is rejected: {}", mapside::err_template(&e)), json!({"error": e, "input": detail()})); return out; }
+        Ok(Ok(n)) => n,
+    };
+    if !mapside::judge_table(rep, rows, &nests, &detail) { return out; }
+    rep.count("table.read_and_compared");
+    for r in rows { rep.count(&format!("table.access_notation.{}", ["decimal", "hexadecimal", "binary"][r.radix as usize % 3])); }
+    let mut fork = rng.fork();
+    let mut ins = match fork.below(3) { 0 => Ins::Sorted, 1 => Ins::Reverse, _ => Ins::Shuffle(&mut fork) };
+    let q = match mapside::to_quill(m, &mut ins) { Ok(q) => q, Err(e) => { rep.count("harness.to_quill_failed"); rep.note(format!("to_quill failed: {e}")); return out; } };
+
+    // ---- nest translation
+    let exp = mapside::ref_translate(rows, m);
+    let outside = exp.iter().any(|e| matches!(e.encl, Exp::Outside(_)) || matches!(e.inner, Exp::Outside(_)));
+    for e in &exp { rep.count(&format!("translate.inner_name.{}", e.inner_case)); }
+    for r in rows { if let Some(s) = shapes.get(&r.class) { rep.seen("translate.target_shapes_of_listed_classes", &format!("{s:?}")); } else { rep.count("translate.listed_class_without_mapping_entry"); } }
+    if outside { rep.count("domain.translation_outside_pinned_rules"); }
+    match mapside::call_remap(&nests, &q) {
+        Err(p) => { if !outside { rep.violation(format!("C14 panic {}", p.site()), json!({"in": "remap_nests", "panic": p.message, "input": detail()})); } }
+        Ok(Err(e)) => { if !outside { rep.violation(format!("C14 nest translation: refuses a table inside the domain: {}", mapside::err_template(&e)), json!({"error": e, "input": detail()})); } }
+        Ok(Ok(t)) => { if !outside { let full = mapside::judge_translation(rep, &exp, &t, &detail); rep.add("translate.nests_judged_completely", full as u64); rep.count("translate.tables_judged"); for e in &exp { if e.method.is_some() { rep.count("translate.enclosing_methods_judged"); } } } }
+    }
+    if light { return out; }
+
+    // ---- apply
+    let Some(want) = mapside::ref_apply(m, names_all) else { rep.count("domain.apply_would_collide"); return out; };
+    match mapside::call_apply(q.clone(), &nests) {
+        Err(p) => { if !outside { rep.violation(format!("C14 panic {}", p.site()), json!({"in": "apply_nests_to_mappings", "panic": p.message, "input": detail()})); } }
+        Ok(Err(e)) => { if !outside { rep.violation(format!("C14 mappings apply: refuses a table inside the domain: {}", mapside::err_template(&e)), json!({"error": e, "input": detail()})); } }
+        Ok(Ok(a)) => {
+            maps::watch(rep, "C14", "apply_nests_to_mappings", &a, &detail);
+            let got = maps::from_quill(&a);
+            rep.count("apply.judged");
+            if mapside::judge_maps(rep, "apply", &want, &got, &detail) { rep.count("apply.equal_to_reference"); }
+            let renamed = m.classes.keys().filter(|k| names_all.get(*k).is_some_and(|n| n != *k)).count();
+            rep.add("apply.class_entries_renamed_expected", renamed as u64);
+            let mut descs_changed = 0u64;
+            for c in m.classes.values() { for (_, d) in c.fields.keys().chain(c.methods.keys()) { if maps::desc::classes_of(d).iter().any(|x| names_all.get(x).is_some_and(|n| n != x)) { descs_changed += 1; } } }
+            rep.add("apply.descriptors_rewritten_expected", descs_changed);
+            // ---- undo(apply(M)) == M on source names and descriptors
+            match mapside::call_undo(a, &nests) {
+                Err(p) => rep.violation(format!("C14 panic {}", p.site()), json!({"in": "undo_nests_to_mappings", "panic": p.message, "input": detail()})),
+                Ok(Err(e)) => rep.violation(format!("C14 mappings undo: refuses what apply produced: {}", mapside::err_template(&e)), json!({"error": e, "input": detail()})),
+                Ok(Ok(u)) => {
+                    maps::watch(rep, "C14", "undo_nests_to_mappings", &u, &detail);
+                    let back = maps::from_quill(&u);
+                    rep.count("undo.judged");
+                    if mapside::judge_maps(rep, "undo(apply(M)) vs M", m, &back, &detail) { rep.count("undo.restores_source_names_and_descriptors"); }
+                }
+            }
+            out.applied = Some(got);
+        }
+    }
+    out
+}
+
+fn jar_case(rng: &mut Rng, rep: &mut Report) {
+    let mut names = Names::new();
+    let n = rng.usize_in(3, 8);
+    let present = gen_present(rng, &mut names, n);
+    let mut pool = present.clone();
+    for _ in 0..2 { pool.push(names.top(rng)); }
+    let mut bodies: Vec<(String, cf::model::Class)> = vec![];
+    for (k, name) in present.iter().enumerate() {
+        let mut c = jarside::gen_body(rng, name, &pool);
+        c.source_file = Some(cf::model::JS::new(&format!("id{k}.java")));
+        bodies.push((name.clone(), c));
+    }
+    let methods: BTreeMap<String, Vec<(String, String)>> = bodies.iter().map(|(n, c)| (n.clone(), jarside::methods_of(c))).collect();
+    let all_apply = rng.chance(2, 5);
+    let rows = gen_rows(rng, &mut names, &present, &methods, &RowCfg { max_rows: 6, all_apply, absent_rows: true });
+    let mut universe = universe_of(&present, &rows);
+    universe.extend(pool.iter().cloned());
+    let index = jarside::jar_index(&bodies);
+    let exp = expect_jar(&index, &rows);
+    let all_rows: Vec<&Row> = rows.iter().collect();
+    let names_all = new_names(&all_rows);
+    if !injective(&exp.names, &universe) || !injective(&names_all, &universe) { rep.count("domain.skipped_rename_not_injective"); return; }
+    let final_newline = rng.bool();
+    let text = table_text(&rows, final_newline);
+    let case = rep.cur.clone();
+    let mut entries: Vec<(String, InEntry)> = vec![];
+    for (name, c) in &bodies {
+        let Some(b) = jarside::emit_checked(c, rng, &case) else { rep.count("harness.emit_skipped"); return; };
+        entries.push((format!("{name}.class"), InEntry::Class(b)));
+    }
+    rng.shuffle(&mut entries);
+    let mut others: Vec<(String, InEntry)> = vec![];
+    if rng.chance(1, 3) { others.push(("META-INF/MANIFEST.MF".into(), InEntry::Other(b"Manifest-Version: 1.0\n".to_vec()))); }
+    if rng.chance(1, 4) { others.push(("data/blob.bin".into(), InEntry::Other((0..rng.below(40)).map(|_| rng.next_u32() as u8).collect()))); }
+    if rng.chance(1, 5) { others.push(("data/".into(), InEntry::Dir)); }
+    for o in &others { let at = rng.below(entries.len() + 1); entries.insert(at, o.clone()); }
+    let through_zip = rng.chance(1, 4);
+
+    let detail = || json!({"table": text, "jar classes": present, "methods declared": index.iter().map(|(c, ms)| (c.clone(), ms.iter().map(|(n, d)| format!("{n}{d}")).collect::<Vec<_>>())).collect::<BTreeMap<_, _>>(),
+        "expected new names": exp.names, "rows that do not apply": rows.iter().zip(&exp.verdicts).filter_map(|(r, v)| v.map(|w| format!("{}: {w}", r.class))).collect::<Vec<_>>(), "through zip": through_zip});
+    rep.eval();
+    // ---- coverage of the table
+    let applying: Vec<&Row> = exp.applying.iter().collect();
+    let mut shapes_fp: Vec<String> = vec![];
+    let mut renames = 0;
+    for (r, v) in rows.iter().zip(&exp.verdicts) {
+        let sh = row_shape(r, *v, &index, &applying, exp.names.get(&r.class));
+        rep.seen("jar.row_shapes", &sh);
+        rep.count(&format!("rows.{}.{}", r.kind().name(), if v.is_none() { "applies" } else { "does_not_apply" }));
+        if let Some(w) = v { rep.count(&format!("rows.not_applying.{w}")); }
+        if v.is_none() {
+            let d = chain_depth(r, &applying); rep.count(&format!("rows.applying.chain_depth.{}", d.min(5)));
+            if exp.names.get(&r.class) == Some(&r.class) { rep.count("rows.applying.name_unchanged"); } else { renames += 1; }
+            if !index.contains_key(&r.encl) { rep.count("rows.applying.enclosing_class_missing"); }
+            // chain whose upper part does not apply: the enclosing class has a row that does not apply
+            if rows.iter().zip(&exp.verdicts).any(|(o, ov)| o.class == r.encl && ov.is_some()) { rep.count("rows.applying.below_a_row_that_does_not_apply"); }
+            match r.kind() { Kind::Anonymous => rep.count(if r.method.is_some() { "rows.anonymous.with_method" } else { "rows.anonymous.without_method" }), _ => {} }
+        } else if index.contains_key(&r.class) && !index.contains_key(&r.encl) { rep.count("rows.not_applying.class_present_enclosing_missing"); }
+        if r.method.is_some() != method_present(&index, r) && r.method.is_some() { rep.count("rows.method_named_but_not_declared"); }
+        shapes_fp.push(sh);
+    }
+    shapes_fp.sort();
+    let everything_applies = exp.verdicts.iter().all(|v| v.is_none());
+    if everything_applies { rep.count("tables.all_rows_apply"); } else { rep.count("tables.some_row_does_not_apply"); }
+
+    // ---- the jar
+    let inputs: Vec<(String, cf::model::Class)> = bodies.clone();
+    let mut jar_names: BTreeMap<usize, String> = BTreeMap::new();
+    match jarside::nest_real(&entries, &text, through_zip) {
+        Err(p) => rep.violation(format!("C14 panic {}", p.site()), json!({"in": "nest_jar", "panic": p.message, "at": format!("{}:{}", p.file, p.line), "input": detail()})),
+        Ok(Err(e)) => rep.violation(format!("C14 jar: nest_jar refuses a jar and table inside the domain: {}", mapside::err_template(&e)), json!({"error": e, "input": detail()})),
+        Ok(Ok(out)) => {
+            rep.count(if through_zip { "jar.through_zip" } else { "jar.in_memory" });
+            let j = jarside::judge_jar(rep, &inputs, &others, &rows, &exp, &out, &detail);
+            if j.ok { rep.count("jar.whole_jar_equal_to_expectation"); }
+            // observed name of every input class, found through its SourceFile marker (independent of the expectation)
+            for (_, e) in &out {
+                if let OutEntry::Class(Ok(b)) = e { if let Ok(c) = cf::parse::parse(b) { if let Some(sf) = &c.source_file { if let Some(k) = sf.show().strip_prefix("id").and_then(|s| s.strip_suffix(".java")).and_then(|s| s.parse::<usize>().ok()) { jar_names.insert(k, c.this_class.show()); } } } }
+            }
+        }
+    }
+    let hits: u64 = inputs.iter().map(|(_, c)| jarside::expected_class(c, &exp).1).sum();
+    if renames > 0 && hits > 0 { rep.nontrivial(hash_parts(&[format!("jar n={n} all={everything_applies}"), shapes_fp.join(",")])); }
+
+    // ---- the mappings over the same classes; agreement
+    let want_methods: Vec<(String, (String, String))> = rows.iter().filter_map(|r| r.method.clone().map(|m| (r.encl.clone(), m))).collect();
+    let (mut m, tshapes) = gen_mappings(rng, &universe, &present, &want_methods);
+    for (k, name) in present.iter().enumerate() { if let Some(c) = m.classes.get_mut(name) { c.comment = Some(format!("id{k}")); } }
+    let mo = map_side(rng, rep, &rows, &text, &m, &tshapes, &names_all, false);
+    if let Some(applied) = &mo.applied {
+        let mut map_names: BTreeMap<usize, String> = BTreeMap::new();
+        for c in applied.classes.values() { if let Some(k) = c.comment.as_deref().and_then(|s| s.strip_prefix("id")).and_then(|s| s.parse::<usize>().ok()) { if let Some(n0) = &c.names[0] { map_names.insert(k, n0.clone()); } } }
+        if jar_names.len() == present.len() && map_names.len() == present.len() {
+            let differing: Vec<usize> = (0..present.len()).filter(|k| jar_names.get(k) != map_names.get(k)).collect();
+            if everything_applies {
+                rep.count("agreement.tables_judged");
+                rep.add("agreement.classes_compared", present.len() as u64);
+                if !differing.is_empty() {
+                    let k = differing[0];
+                    rep.violation("C14 agreement: jar and mappings name a class differently although every row applies", json!({"class": present[k], "jar": jar_names.get(&k), "mappings": map_names.get(&k), "input": detail()}));
+                } else { rep.count("agreement.all_class_names_agree"); }
+            } else {
+                rep.count("agreement.not_judged_some_row_does_not_apply");
+                if !differing.is_empty() { rep.count("agreement.not_judged.names_differ_as_expected_for_non_applying_rows"); }
+            }
+        } else { rep.count("agreement.not_judged_class_not_located"); }
+    }
+    if rep.want_sample() && renames > 0 { rep.sample(|| json!({"kind": "jar case", "table": text, "jar classes": present, "expected new names": exp.names, "created": exp.must_create, "mappings": m.render()})); }
+}
+
+fn maps_case(rng: &mut Rng, rep: &mut Report, light: bool) {
+    let mut names = Names::new();
+    let n = rng.usize_in(2, 9);
+    let present = gen_present(rng, &mut names, n);
+    let mut methods: BTreeMap<String, Vec<(String, String)>> = BTreeMap::new();
+    for c in &present {
+        let mut v = vec![];
+        for k in 0..rng.below(3) { let d = match rng.below(3) { 0 => "()V".to_string(), 1 => format!("(L{};)V", rng.pick(&present)), _ => format!("(I)[L{};", rng.pick(&present)) }; v.push((format!("m{k}"), d)); }
+        methods.insert(c.clone(), v);
+    }
+    let rows = gen_rows(rng, &mut names, &present, &methods, &RowCfg { max_rows: 7, all_apply: false, absent_rows: true });
+    let universe = universe_of(&present, &rows);
+    let all_rows: Vec<&Row> = rows.iter().collect();
+    let names_all = new_names(&all_rows);
+    if !injective(&names_all, &universe) { rep.count("domain.skipped_rename_not_injective"); return; }
+    let text = table_text(&rows, rng.bool());
+    let want_methods: Vec<(String, (String, String))> = rows.iter().filter_map(|r| r.method.clone().map(|m| (r.encl.clone(), m))).collect();
+    let (m, tshapes) = gen_mappings(rng, &universe, &[], &want_methods);
+    rep.eval();
+    let mut fp: Vec<String> = rows.iter().map(|r| format!("{}:d{}:{:?}:{}", r.kind().name(), chain_depth(r, &all_rows), tshapes.get(&r.class), r.method.is_some())).collect();
+    fp.sort();
+    for r in &rows { rep.count(&format!("maps.rows.chain_depth.{}", chain_depth(r, &all_rows).min(5))); }
+    let listed_with_entry = rows.iter().filter(|r| m.classes.contains_key(&r.class)).count();
+    let mo = map_side(rng, rep, &rows, &text, &m, &tshapes, &names_all, light);
+    let touched = m.classes.values().any(|c| c.fields.keys().chain(c.methods.keys()).any(|(_, d)| maps::desc::classes_of(d).iter().any(|x| names_all.get(x).is_some_and(|nn| nn != x))));
+    if listed_with_entry > 0 && (touched || light) { rep.nontrivial(hash_parts(&[format!("maps n={n}"), fp.join(",")])); }
+    if rep.want_sample() && mo.applied.is_some() && listed_with_entry > 0 && rep.samples.len() < 2 { rep.sample(|| json!({"kind": "mapping case", "table": text, "mappings": m.render(), "expected source names": names_all})); }
+}
+
+// ------------------------------------------------------------------------------------------------ self-checks
+
+fn self_checks() -> Result<(), String> {
+    refnest::self_check()?;
+    rename::self_check()?;
+    mapside::self_check()?;
+    maps::self_test(3, 20)?;
+    // canaries: the comparison functions must flag deliberately wrong expectations
+    let mut rng = Rng::new(0xC14);
+    let mut tried = 0;
+    let (mut jar_ok, mut fact_ok, mut map_ok, mut tr_ok) = (false, false, false, false);
+    while tried < 200 && !(jar_ok && fact_ok && map_ok && tr_ok) {
+        tried += 1;
+        let mut names = Names::new();
+        let present = gen_present(&mut rng, &mut names, 4);
+        let bodies: Vec<(String, cf::model::Class)> = present.iter().map(|n| (n.clone(), jarside::gen_body(&mut rng, n, &present))).collect();
+        let methods: BTreeMap<String, Vec<(String, String)>> = bodies.iter().map(|(n, c)| (n.clone(), jarside::methods_of(c))).collect();
+        let rows = gen_rows(&mut rng, &mut names, &present, &methods, &RowCfg { max_rows: 3, all_apply: true, absent_rows: false });
+        let universe = universe_of(&present, &rows);
+        let index = jarside::jar_index(&bodies);
+        let exp = expect_jar(&index, &rows);
+        let all_rows: Vec<&Row> = rows.iter().collect();
+        let names_all = new_names(&all_rows);
+        if !injective(&names_all, &universe) || !exp.names.iter().any(|(a, b)| a != b) { continue; }
+        let text = table_text(&rows, true);
+        let mut entries = vec![];
+        for (n, c) in &bodies { match cf::emit::emit(c, &cf::emit::Layout::canonical()) { Ok(b) => entries.push((format!("{n}.class"), InEntry::Class(b))), Err(_) => { entries.clear(); break; } } }
+        if entries.is_empty() { continue; }
+        let Ok(Ok(out)) = jarside::nest_real(&entries, &text, false) else { continue };
+        // (1) expectation without the first renaming row: the renamed class must be reported
+        let victim = exp.names.iter().find(|(a, b)| a != b).map(|(a, _)| a.clone()).unwrap_or_default();
+        let fewer: Vec<Row> = rows.iter().filter(|r| r.class != victim).cloned().collect();
+        let wrong = expect_jar(&index, &fewer);
+        let mut probe = Report::new();
+        jarside::judge_jar(&mut probe, &bodies, &[], &fewer, &wrong, &out, &|| json!(null));
+        if probe.violations.keys().any(|k| k.starts_with("C14 jar: class without a row is missing") || k.starts_with("C14 jar: unexpected entry")) { jar_ok = true; }
+        // (2) expectation that forgets to rename field descriptors: a fact difference must be reported
+        let mut wrong_bodies = bodies.clone();
+        let mut changed = false;
+        for (_, c) in &mut wrong_bodies { for m in &mut c.methods { if m.desc.show().contains(&format!("L{victim};")) { m.desc = cf::model::JS::new(&m.desc.show().replace(&format!("L{victim};"), "Lcanary/Wrong;")); changed = true; } } }
+        if changed {
+            let mut probe = Report::new();
+            jarside::judge_jar(&mut probe, &wrong_bodies, &[], &rows, &exp, &out, &|| json!(null));
+            if probe.violations.keys().any(|k| k.starts_with("C14 jar class fact .methods[].desc")) { fact_ok = true; }
+        }
+        // (3) mapping side: a reference that forgets one rename must be reported; (4) a wrong inner name too
+        let (m, _) = gen_mappings(&mut rng, &universe, &present, &[]);
+        let Ok(q) = mapside::to_quill(&m, &mut Ins::Sorted) else { continue };
+        let Ok(Ok(nests)) = mapside::read_table::<Src>(&text) else { continue };
+        if let Ok(Ok(a)) = mapside::call_apply(q.clone(), &nests) {
+            let mut fewer_names = names_all.clone(); fewer_names.remove(&victim);
+            if let Some(wrong) = mapside::ref_apply(&m, &fewer_names) {
+                let mut probe = Report::new();
+                mapside::judge_maps(&mut probe, "apply", &wrong, &maps::from_quill(&a), &|| json!(null));
+                if !probe.violations.is_empty() { map_ok = true; }
+            }
+        }
+        if let Ok(Ok(t)) = mapside::call_remap(&nests, &q) {
+            let mut e = mapside::ref_translate(&rows, &m);
+            if e.iter().all(|x| matches!(x.inner, Exp::Exact(_)) && matches!(x.encl, Exp::Exact(_))) {
+                e[0].inner = Exp::Exact("canary$Wrong".into());
+                let mut probe = Report::new();
+                mapside::judge_translation(&mut probe, &e, &t, &|| json!(null));
+                if probe.violations.keys().any(|k| k.contains("inner name differs")) { tr_ok = true; }
+            }
+        }
+    }
+    if !(jar_ok && fact_ok && map_ok && tr_ok) { return Err(format!("canaries not flagged after {tried} scenarios: jar={jar_ok} fact={fact_ok} mappings={map_ok} translation={tr_ok}")); }
+    Ok(())
+}
+
+// ------------------------------------------------------------------------------------------------ Miri
+
+/// `c14 --miri-slice <seed> <operations> [max seconds]`: mapping-side operations only, single-threaded, no files.
+fn miri_slice(seed: u64, ops: usize, max_s: u64) -> i32 {
+    let mut rep = Report::new();
+    let deadline = std::time::Instant::now() + std::time::Duration::from_secs(max_s);
+    let mut i = 0u64;
+    let count = |rep: &Report| rep.get("table.read_and_compared") + rep.get("translate.tables_judged") + rep.get("apply.judged") + rep.get("undo.judged");
+    while (count(&rep) as usize) < ops && i < 10_000 && std::time::Instant::now() < deadline {
+        let mut rng = Rng::new(rng::case_seed(seed, "C14/miri", i));
+        rep.cur = ("miri".into(), i);
+        maps_case(&mut rng, &mut rep, false);
+        i += 1;
+    }
+    for v in rep.violations.values() { println!("SLICE-OBSERVATION {} ({}x)", v.signature, v.count); }
+    println!("MIRI-SLICE done cases={} operations={} (asked for {}) observations={}", i, count(&rep), ops, rep.violations.len());
+    0
+}
+
+fn run_miri(ctx: &Ctx, ops: usize) -> (String, Option<String>) {
+    let manifest = format!("{}/../../Cargo.toml", env!("CARGO_MANIFEST_DIR"));
+    if !std::path::Path::new(&manifest).exists() { return (format!("skipped: {manifest} not found"), None); }
+    let t0 = std::time::Instant::now();
+    let out = std::process::Command::new("timeout").args(["-k", "10", "285", "cargo", "+nightly", "miri", "run", "--offline", "--manifest-path", &manifest, "-p", "c14", "--", "--miri-slice", &ctx.seed.to_string(), &ops.to_string(), "150"])
+        .env("MIRIFLAGS", "-Zmiri-disable-isolation").env("CARGO_NET_OFFLINE", "true").env_remove("RUSTFLAGS").output();
+    let out = match out { Ok(o) => o, Err(e) => return (format!("skipped: cannot start cargo miri: {e}"), None) };
+    let so = String::from_utf8_lossy(&out.stdout); let se = String::from_utf8_lossy(&out.stderr);
+    let secs = t0.elapsed().as_secs();
+    if let Some(l) = se.lines().find(|l| l.contains("Undefined Behavior")) { return (format!("UB diagnostic after {secs}s"), Some(l.trim().to_string())); }
+    match out.status.code() {
+        Some(124) | Some(137) => (format!("skipped: time-out after {secs}s"), None),
+        Some(0) => (format!("ran in {secs}s: {}", so.lines().find(|l| l.starts_with("MIRI-SLICE")).unwrap_or("no summary line")), None),
+        c => (format!("skipped: miri unavailable or failed (exit {c:?}) after {secs}s: {}", se.lines().filter(|l| l.starts_with("error")).take(2).collect::<Vec<_>>().join(" | ")), None),
+    }
+}
+
+fn main() {
+    let args: Vec<String> = std::env::args().collect();
+    if let Some(p) = args.iter().position(|a| a == "--miri-slice") {
+        let seed = args.get(p + 1).and_then(|s| s.parse().ok()).unwrap_or(1);
+        let n = args.get(p + 2).and_then(|s| s.parse().ok()).unwrap_or(300);
+        let max_s = args.get(p + 3).and_then(|s| s.parse().ok()).unwrap_or(150);
+        std::process::exit(miri_slice(seed, n, max_s));
+    }
+    let mut ctx = Ctx::from_args("C14", 35, 420);
+    let replay = load_replay(&mut ctx);
+    if let Err(e) = self_checks() { println!("HARNESS-ERROR C14 self-check failed: {e}"); std::process::exit(3); }
+    let mut rep = Report::new();
+    let n_jar = ctx.tier.pick(1_500, 40_000);
+    let n_maps = ctx.tier.pick(6_000, 200_000);
+    run_cases(&ctx, &replay, &mut rep, "jar", n_jar, |rng, rep, _| jar_case(rng, rep));
+    run_cases(&ctx, &replay, &mut rep, "maps", n_maps, |rng, rep, _| maps_case(rng, rep, false));
+
+    let mut meta = Meta::new("exploration",
+        "jar case = 3-8 generated classes that reference each other (generated bodies over a shared class pool + anchor methods) x a nests table of 1-6 rows plus rows for absent classes, fed as text, x a two-namespace mapping set over the same classes; \
+         maps case = table x mapping set without a jar. Non-trivial (jar) = at least one applying row changes a name and at least one reference to a renamed class exists; (maps) = a listed class has a mapping entry and a descriptor mentions a renamed class. \
+         distinct = fingerprint of the multiset of row shapes (kind, applies, chain depth, enclosing class present/missing, name changes, method none/declared/not declared; maps: target-name shape) and the jar size")
+        .assume("tables are acyclic, have one row per class, and the rename they describe is injective on all class names in play (jar classes, created classes, classes mentioned in descriptors)")
+        .assume("every class of a mapping set has a target name; target names are pairwise distinct (the mapping side unwraps the target name)")
+        .assume("a missing enclosing class has no row of its own and a row for an absent class never encloses a present one (the filter's treatment of a class that was just created depends on row order and is not specified)")
+        .assume("\"enclosing method present\" = the row names a method that the enclosing class in the jar declares (DESIGN C14); anonymous numbers stay within 1..=i32::MAX or are zero")
+        .assume("jar entry name = class name + .class; access flags use only the ten bits JVMS 4.7.6 defines")
+        .assume("not judged: target names after apply/undo, generic signatures, facts the reader / jar remapper are known to drop (records, unknown attributes, module data, parameter annotations: removed from the generated bodies), order of InnerClasses entries, facts of created classes other than their name, remap=false");
+    if replay.is_none() {
+        for k in ["anonymous", "inner", "local"] {
+            meta.oblige(format!("{k} rows that apply and {k} rows whose class is present but whose rule fails"), rep.get(&format!("rows.{k}.applies")) > 20 && rep.counters.iter().any(|(c, v)| c.starts_with(&format!("rows.not_applying.{k}:")) && *v > 5));
+        }
+        meta.oblige("applying chains of depth 1, 2, 3 and 4", (1..=4).all(|d| rep.get(&format!("rows.applying.chain_depth.{d}")) > 0));
+        meta.oblige("applying row below a row that does not apply (chain interrupted)", rep.get("rows.applying.below_a_row_that_does_not_apply") > 5);
+        meta.oblige("rows for classes that are not in the jar", rep.get("rows.not_applying.class not in the jar") > 20);
+        meta.oblige("missing enclosing classes created (>= 20) and a missing enclosing class named only by a row that does not apply", rep.get("jar.created_enclosing_classes") >= 20 && rep.get("rows.not_applying.class_present_enclosing_missing") > 0);
+        meta.oblige("applying rows that do not change the name (A$B in A)", rep.get("rows.applying.name_unchanged") > 5);
+        meta.oblige("anonymous rows with and without enclosing method; rows naming a method the enclosing class does not declare", rep.get("rows.anonymous.with_method") > 0 && rep.get("rows.anonymous.without_method") > 0 && rep.get("rows.method_named_but_not_declared") > 10);
+        meta.oblige("at least 200 references to renamed classes expected in the nested jars", rep.get("jar.references_rewritten_expected") >= 200);
+        meta.oblige("jars read from memory and through a zip archive", rep.get("jar.in_memory") > 0 && rep.get("jar.through_zip") > 0);
+        meta.oblige("at least 100 tables in which every row applies judged for jar/mappings agreement", rep.get("agreement.tables_judged") >= 100);
+        meta.oblige("apply judged >= 1000 times with renamed class entries and rewritten descriptors", rep.get("apply.judged") >= 1000 && rep.get("apply.class_entries_renamed_expected") > 500 && rep.get("apply.descriptors_rewritten_expected") > 500);
+        meta.oblige("undo(apply(M)) judged >= 1000 times", rep.get("undo.judged") >= 1000);
+        meta.oblige("nest translation: derived and custom inner names for inner and local rows, anonymous numbers kept and taken from C_<n>, already nested X__Y names",
+            ["inner.derived", "inner.custom", "local.derived", "local.custom", "anonymous.number_kept", "anonymous.number_from_C_name", "already_nested"].iter().all(|k| rep.get(&format!("translate.inner_name.{k}")) > 10));
+        meta.oblige("nest translation: enclosing methods judged; listed classes without mapping entry", rep.get("translate.enclosing_methods_judged") > 100 && rep.get("translate.listed_class_without_mapping_entry") > 10);
+        meta.oblige("access column in decimal, hexadecimal and binary", ["decimal", "hexadecimal", "binary"].iter().all(|k| rep.get(&format!("table.access_notation.{k}")) > 0));
+        meta.oblige("mapping-side chains of depth 1..4", (1..=4).all(|d| rep.get(&format!("maps.rows.chain_depth.{d}")) > 0));
+        meta.oblige("fewer than 10% of the generated cases fall outside the domain", (rep.get("domain.skipped_rename_not_injective") + rep.get("harness.emit_skipped") + rep.get("harness.to_quill_failed")) * 10 < rep.evaluations.max(1));
+        meta.oblige("the invariant walker ran on results", rep.get("invariant.walks") > 1000);
+        if ctx.tier == Tier::Thorough {
+            let (status, ub) = run_miri(&ctx, 300);
+            if let Some(line) = ub { rep.cur = ("miri".into(), 0); rep.violation(format!("miri: {line}"), json!({"how": "cargo +nightly miri run --offline -p c14 -- --miri-slice <seed> 300", "seed": ctx.seed as i64})); }
+            meta.extra.insert("miri_slice".into(), json!(status));
+        } else {
+            meta.extra.insert("miri_slice".into(), json!("not run in the quick tier"));
+        }
+    }
+    std::process::exit(finish(&ctx, rep, meta));
+}
